@@ -48,7 +48,10 @@ def gen_text(rng, headers=(), allow_header=False, allow_cr_end=False, maxlines=6
 
 JSON_DOCS = [b'{"pct":"100%","fmt":"%s %d"}', b'{"a":1}', b'{"b":[1,2,{"c":null}],"a":"x"}', b'[]', b'{}', b'"str"', b'12.50', b'null',
              b'{"user":{"name":"n","age":3},"tags":["x","y"]}', b'{ "z" : true ,\n "y" : [ ] }',
-             b'{"k\\"q":"v\\n","\\u00e9":1e3}', b'[1,[2,[3,[4]]]]', b'{"a":"---"}', b'{"time":"2020-01-01T00:00:00Z","k":"v"}']
+             b'{"k\\"q":"v\\n","\\u00e9":1e3}', b'[1,[2,[3,[4]]]]', b'{"a":"---"}', b'{"time":"2020-01-01T00:00:00Z","k":"v"}',
+             # the escapes json.Marshal writes for < > & - and an escaped BACKSLASH followed by the same letters (not an escape)
+             b'{"pattern":"\\\\u003c is how json.Marshal writes \\u003c","amp":"a\\u0026b \\u003e c","path":"C:\\\\u0026\\\\u003e"}',
+             b'{"html":"<b>bold</b> & more","esc":"\\u003cb\\u003e"}']
 BAD_JSON = [b'{', b'{"a":}', b'', b'nul', b'{"a":1,}', b"{'a':1}", b'[1 2]']
 YAML_DOCS = [b"rate: 100%\nfmt: '%v'\n", b"/-/-/-/\n", b"a\n/-/-/-/\nb\n", b"a: 1\n", b"a: 1", b"list:\n  - x\n  - y\n", b"# comment\nk: v\n---\nk2: v2\n", b"text: |\n  ---\n  more\n",
              b"a: 1\n\n\n", b"[TestA - 1]\n", b"k: [1, 2]\n", b"---\na: b\n", b"s: '/-/-/-/'\n", b"a:\n  b:\n    c: d\n"]
